@@ -73,6 +73,19 @@ Inductive init_shape := InitForce (off : Z) | InitSetDefault (off : Z) | InitUnr
 Definition init_shape_ok (s : init_shape) : bool :=
   match s with InitForce off => Z.eqb off 1 | _ => false end.
 
+(* float + small int, exact (None when the sum would need rounding): a float reified as m * 2^e, m odd or 0 *)
+Fixpoint pos_tz (q : positive) : Z := match q with xO r => 1 + pos_tz r | _ => 0 end.
+Definition flt_norm (m e : Z) : option (Z * Z) :=
+  match m with
+  | Z0 => Some (0, 0)
+  | Zpos q => let t := pos_tz q in
+              if Z.abs (m / 2 ^ t) <? 2 ^ 53 then Some (m / 2 ^ t, e + t) else None
+  | Zneg q => let t := pos_tz q in
+              if Z.abs (m / 2 ^ t) <? 2 ^ 53 then Some (m / 2 ^ t, e + t) else None
+  end.
+Definition flt_add_int (m e k : Z) : option (Z * Z) :=
+  if e <? 0 then flt_norm (m + k * 2 ^ (- e)) e else flt_norm (m * 2 ^ e + k) 0.
+
 Section WithFunctions.
   (* the user's FunctionCall functions: pure, may raise *)
   Variable fn : N -> list pyval -> res pyval.
@@ -152,7 +165,7 @@ Section WithFunctions.
   Definition version_key : pyval := PStr (s2p "version").
 
   Definition py_slice_from {A} (l : list A) (i : Z) : list A :=
-    if 0 <=? i then skipn (Z.to_nat i) l
+    if 0 <=? i then (if Z.of_nat (length l) <=? i then [] else skipn (Z.to_nat i) l)   (* no unary blow-up *)
     else skipn (Z.to_nat (Z.max 0 (Z.of_nat (length l) + i))) l.
 
   (* The four integer literals of convert_dict, re-read from the source on every run
@@ -168,6 +181,12 @@ Section WithFunctions.
     | None => Ok (dict_set d version_key (PNum (NInt (cd_bump_default p + cd_bump_inc p))))
     | Some (PNum (NInt z)) => Ok (dict_set d version_key (PNum (NInt (z + cd_bump_inc p))))
     | Some (PBool b) => Ok (dict_set d version_key (PNum (NInt ((if b then 1 else 0) + cd_bump_inc p))))
+    | Some (PNum (NFlt m e)) =>                (* a mapping put a float under "version": float + int *)
+        match flt_add_int m e (cd_bump_inc p) with
+        | Some (m', e') => Ok (dict_set d version_key (PNum (NFlt m' e')))
+        | None => Raise Unmodelled
+        end
+    | Some (PNum (NDec _ _)) => Raise Unmodelled
     | Some _ => Raise TypeError
     end.
 
